@@ -431,3 +431,11 @@ def block_page_complete(ctx):
     if bad:
         ctx.violate(q, 'a block with %d transactions, limit %d, page %d: %d of the %d transactions of the page are cached and the page is served from the cache' % first, dec[0],
                     'getblock returns a partial transaction list as if it were the whole page (%d grid points)' % bad)
+
+
+@PROP.obligation('C20.arg-binding')
+def arg_binding(ctx):
+    """Calls inside services.services, services.baseclient that pass two or more positional arguments: a variable passed positionally must not land on a parameter of another
+    name while the callee has a parameter of the variable's own name elsewhere (argument inserted / dropped / swapped)."""
+    from .common_argsel import arg_binding as run
+    run(ctx, ['services.services', 'services.baseclient'], 'a provider query is made with shifted arguments')
